@@ -86,6 +86,13 @@ Definition norm_pair (a b : option Z) (extent : Z) : Z * Z :=
   | Some x, Some y => (x, y)
   end.
 
+(* A raw colour is four integers; ColorMatrix._standardize_raw (= param_color) clamps each to
+   0..65535 and rounds, and rounding an integer is the identity.  This is the instance of
+   the abstract [std] below for `units raw` scripts with integer settings. *)
+Definition zcolour := (Z * Z * Z * Z)%type.
+Definition standardize_raw_z (c : zcolour) : zcolour :=
+  let '(a, b, c', d) := c in (clamp16 a, clamp16 b, clamp16 c', clamp16 d).
+
 Inductive kind := KPlain | KZones | KMatrix (h w : Z).
 Inductive operand_t := OpNull | OpLight | OpDefault | OpMatrix | OpMatrixLight | OpMzLight.
 Inductive reg := FIRST_ROW | LAST_ROW | FIRST_COLUMN | LAST_COLUMN | FIRST_ZONE | LAST_ZONE.
